@@ -26,9 +26,11 @@ pub fn run() {
             .split(';')
             .map(|p| {
                 let (l, f) = p.split_once(':').unwrap();
-                (l.split(',').filter(|x| !x.is_empty()).map(|x| x.parse().unwrap()).collect(), f == "h")
+                (l.split(',').filter(|x| !x.is_empty()).map(|x| x.parse().unwrap()).collect(), f.starts_with('h'))
             })
             .collect();
+        // phased: members whose flag ends in 'L' are added only after every event of the early members was reported
+        let late: Vec<bool> = a["plan"].split(';').map(|p| p.ends_with('L')).collect();
         let mode = a.get("mode").cloned().unwrap_or_else(|| "before".into());
         let threads: usize = a.get("threads").map(|s| s.parse().unwrap()).unwrap_or(1);
         let eintr: i64 = a.get("eintr").map(|s| s.parse().unwrap()).unwrap_or(0);
@@ -91,7 +93,20 @@ pub fn run() {
                 std::thread::sleep(std::time::Duration::from_micros(300));
             }
             for i in 0..m {
-                ids[i] = Some(set.add(rxs[i].take().unwrap()).unwrap());
+                if !(mode == "phased" && late[i]) {
+                    ids[i] = Some(set.add(rxs[i].take().unwrap()).unwrap());
+                }
+            }
+        }
+        let phased = mode == "phased";
+        let early_closed: usize = (0..m).filter(|i| plans[*i].1 && !late[*i]).count();
+        let early_msgs: usize = (0..m).filter(|i| !late[*i]).map(|i| plans[i].0.len()).sum();
+        let mut late_rx: Vec<(usize, platform::OsIpcReceiver)> = Vec::new();
+        if phased {
+            for i in 0..m {
+                if late[i] {
+                    late_rx.push((i, rxs[i].take().unwrap()));
+                }
             }
         }
         let expected_closed: usize = plans.iter().filter(|p| p.1).count();
@@ -101,7 +116,14 @@ pub fn run() {
         let res = with_watchdog(8_000, move || {
             let mut batches: Vec<Vec<serde_json::Value>> = Vec::new();
             let (mut nclosed, mut nmsgs) = (0usize, 0usize);
+            let mut late_rx = late_rx;
+            let mut late_ids: Vec<(usize, u64)> = Vec::new();
             while nclosed < expected_closed || nmsgs < expected_msgs {
+                if phased && !late_rx.is_empty() && nclosed >= early_closed && nmsgs >= early_msgs {
+                    for (i, r) in late_rx.drain(..) {
+                        late_ids.push((i, set.add(r).unwrap()));
+                    }
+                }
                 match set.select() {
                     Ok(evs) => {
                         let mut b = Vec::new();
@@ -126,12 +148,17 @@ pub fn run() {
                     },
                 }
             }
-            (batches, set)
+            (batches, set, late_ids)
         });
         mark(&format!("endrset {}", id));
         eintr_every(0);
         let (batches, hang) = match res {
-            Some((b, _set)) => (b, false),
+            Some((b, _set, late_ids)) => {
+                for (i, rid) in late_ids {
+                    ids[i] = Some(rid);
+                }
+                (b, false)
+            },
             None => (vec![], true),
         };
         if hang {
